@@ -878,6 +878,24 @@ impl World {
                 let mut tags = base.tags.clone();
                 let pos = tags.iter().position(|t| t.len() >= 2 && t[0] == "d")?;
                 let d = tags[pos][1].clone();
+                if how % 9 >= 7 {
+                    // a second d tag: the event lives at another address but also carries the base event's identifier
+                    // as an additional d tag (tag filters see every d tag, the address only the first)
+                    if how % 9 == 7 {
+                        tags.insert(pos, vec!["d".to_string(), format!("{d}-alt")]);
+                    } else {
+                        tags.push(vec!["d".to_string(), "x".to_string()]);
+                    }
+                    let canon = serde_json::to_string(&serde_json::json!([0, base.pubkey, created_at, base.kind, tags, base.content])).unwrap();
+                    let m = MEvent {
+                        id: hex(&sha256(canon.as_bytes())),
+                        created_at: *created_at,
+                        tags,
+                        ..base
+                    };
+                    let i = self.intern(m, None);
+                    return Some(Concrete::Store(i));
+                }
                 let nd = match how % 7 {
                     // a ':' inside the identifier (addresses are written kind:pubkey:d)
                     5 => format!("{d}:y"),
